@@ -566,6 +566,30 @@ fn cases_plain(tier: Tier) -> Vec<Case> {
         cfg.bc_step = 0x10;
         v.push(Case { label: format!("fatal-lane sequence {:?} (0 normal, 1 fatal APE, 2 absent per lane; lanes {}..{})", s, base, base + 2), cfg, key: stave_key(), frames, want });
     }
+    // ---- fatal-lane memory across groups: a lane of group G announces a fatal state; afterwards a frame of two lanes
+    //      that belong to ANOTHER group (right count - one lane is excused -, but the excused lane is not of their
+    //      group: invalid grouping), framed by legal frames of G without the fatal lane
+    for g in 0..3u8 {
+        for fl in 0..3u8 {
+            for g2 in (0..3u8).filter(|x| *x != g) {
+                for skip in 0..3u8 {
+                    let base = g * 3;
+                    let fatal = base + fl;
+                    let normal = |l: u8| ib_lane(l, 0x50, &[ha[0]], None);
+                    let f0 = FrameSpec { lanes: (0..3).map(|l| normal(base + l)).collect(), nodata_before: false, split: None };
+                    let f1 = FrameSpec { lanes: (0..3).map(|l| if base + l == fatal { LaneSpec { id: words::ib_id(fatal), chips: vec![], prefix: vec![alpide::APE_DET_TIMEOUT] } } else { normal(base + l) }).collect(), nodata_before: false, split: None };
+                    let rest = FrameSpec { lanes: (0..3).filter(|l| base + l != fatal).map(|l| normal(base + l)).collect(), nodata_before: false, split: None };
+                    let other = FrameSpec { lanes: (0..3).filter(|l| *l != skip).map(|l| normal(g2 * 3 + l)).collect(), nodata_before: false, split: None };
+                    let none: BTreeSet<u8> = BTreeSet::new();
+                    let fb: BTreeSet<u8> = [fatal].into_iter().collect();
+                    let want = vec![Some(expected_codes(&f0, &none, &stave_key())), None, Some(expected_codes(&rest, &fb, &stave_key())), Some(expected_codes(&other, &fb, &stave_key())), Some(expected_codes(&rest, &fb, &stave_key()))];
+                    let mut cfg = ib_cfg();
+                    cfg.bc_step = 0x10;
+                    v.push(Case { label: format!("fatal lane {fatal}, then lanes of group {g2} without its lane {} (two lanes of another group)", g2 * 3 + skip), cfg, key: stave_key(), frames: vec![f0, f1, rest.clone(), other, rest], want });
+                }
+            }
+        }
+    }
     v
 }
 
